@@ -15,6 +15,38 @@ static void harness_setup(void) {
 	uint8_t a[32], b[32]; for (size_t l = 0; l < 200; l += 13) { fill(MSG, l, 2); ref_blake2s(a, 32, MSG, l); if (ref_digest("BLAKE2s256", MSG, l, b) == 32 && memcmp(a, b, 32)) { fprintf(stderr, "reference BLAKE2s disagrees with EVP\n"); exit(2); } }
 }
 
+/* the hash the build maps md_map / md_hmac / md_kdf / md_mgf to (MD_MAP): reference counterpart */
+#if MD_MAP == SH224
+#define CFG_EVP "SHA224"
+#define CFG_BLK 64
+#elif MD_MAP == SH256
+#define CFG_EVP "SHA256"
+#define CFG_BLK 64
+#elif MD_MAP == SH384
+#define CFG_EVP "SHA384"
+#define CFG_BLK 128
+#elif MD_MAP == SH512
+#define CFG_EVP "SHA512"
+#define CFG_BLK 128
+#elif MD_MAP == B2S256
+#define CFG_EVP "BLAKE2s256"
+#define CFG_BLK 64
+#else
+#define CFG_EVP NULL
+#define CFG_BLK 64
+#endif
+static void cfg_hash(uint8_t *o, const uint8_t *m, size_t l) { if (CFG_EVP) ref_digest(CFG_EVP, m, l, o); else ref_blake2s(o, RLC_MD_LEN, m, l); }
+/* RFC 2104 written out over the configured hash */
+static void cfg_hmac(uint8_t *o, const uint8_t *key, size_t kl, const uint8_t *m, size_t l) {
+	uint8_t k0[128], ih[64]; memset(k0, 0, sizeof k0); if (kl > CFG_BLK) cfg_hash(k0, key, kl); else memcpy(k0, key, kl);
+	uint8_t *b = malloc(CFG_BLK + l + 64); for (int i = 0; i < CFG_BLK; i++) b[i] = k0[i] ^ 0x36; memcpy(b + CFG_BLK, m, l); cfg_hash(ih, b, CFG_BLK + l);
+	for (int i = 0; i < CFG_BLK; i++) b[i] = k0[i] ^ 0x5c; memcpy(b + CFG_BLK, ih, RLC_MD_LEN); cfg_hash(o, b, CFG_BLK + RLC_MD_LEN); free(b);
+}
+static void cfg_ctr_kdf(uint8_t *out, size_t n, const uint8_t *in, size_t l, uint32_t start) {
+	uint8_t *buf = malloc(l + 4), h[64]; memcpy(buf, in, l); size_t off = 0;
+	for (uint32_t c = start; off < n; c++) { buf[l] = (uint8_t)(c >> 24); buf[l + 1] = (uint8_t)(c >> 16); buf[l + 2] = (uint8_t)(c >> 8); buf[l + 3] = (uint8_t)c; cfg_hash(h, buf, l + 4); size_t m = n - off < RLC_MD_LEN ? n - off : RLC_MD_LEN; memcpy(out + off, h, m); off += m; }
+	free(buf);
+}
 typedef void (*md_fn)(uint8_t *, const uint8_t *, size_t);
 static const struct { const char *n, *evp; md_fn f; size_t len; } MD[] = {
 	{"md_map_sh224", "SHA224", md_map_sh224, 28}, {"md_map_sh256", "SHA256", md_map_sh256, 32}, {"md_map_sh384", "SHA384", md_map_sh384, 48},
@@ -31,19 +63,24 @@ static void do_hash(vf_case *c) { /* alg, len, pattern */
 }
 static void do_hmac(vf_case *c) { /* keylen, msglen, pattern */
 	size_t kl = mpz_get_ui(c->v[0]), l = mpz_get_ui(c->v[1]); int pat = (int)mpz_get_si(c->v[2]);
-	uint8_t got[80], exp[80]; unsigned ol; fill(MSG, l, pat); fill(KEY, kl, (pat + 2) % 4); memset(got, 0xA5, sizeof got);
+	uint8_t got[96], exp[96]; fill(MSG, l, pat); fill(KEY, kl, (pat + 2) % 4); memset(got, 0xA5, sizeof got);
 	int th; VF_TRY(th, md_hmac(got, MSG, l, KEY, kl)); transitions++;
 	if (th) { vf_fail(NULL, "md_hmac raised %d", th); return; }
-	HMAC(EVP_sha256(), kl ? KEY : (const uint8_t *)"", (int)kl, MSG, l, exp, &ol);
-	if (memcmp(got, exp, 32)) vf_fail(NULL, "md_hmac(key %zu bytes, msg %zu bytes) differs from RFC 2104", kl, l);
-	else if (got[32] != 0xA5) vf_fail(NULL, "md_hmac wrote beyond the tag");
+	cfg_hmac(exp, KEY, kl, MSG, l);
+#if MD_MAP == SH256
+	{ uint8_t e2[64]; unsigned ol; HMAC(EVP_sha256(), kl ? KEY : (const uint8_t *)"", (int)kl, MSG, l, e2, &ol); if (memcmp(e2, exp, 32)) { fprintf(stderr, "reference HMAC disagrees with OpenSSL\n"); exit(2); } }
+#endif
+	if (memcmp(got, exp, RLC_MD_LEN)) vf_fail(NULL, "md_hmac(key %zu bytes, msg %zu bytes) differs from RFC 2104", kl, l);
+	else if (got[RLC_MD_LEN] != 0xA5) vf_fail(NULL, "md_hmac wrote beyond the tag");
+	/* the generic entry point maps to the configured hash */
+	if (kl == 0) { memset(got, 0xA5, sizeof got); VF_TRY(th, md_map(got, MSG, l)); transitions++; cfg_hash(exp, MSG, l); if (th) vf_fail(NULL, "md_map raised"); else if (memcmp(got, exp, RLC_MD_LEN)) vf_fail(NULL, "md_map(%zu bytes) is not the configured hash", l); else if (got[RLC_MD_LEN] != 0xA5) vf_fail(NULL, "md_map wrote beyond the digest"); }
 }
 static void do_kdf(vf_case *c) { /* kind (0 mgf, 1 kdf), outlen, inlen */
 	int kind = (int)mpz_get_si(c->v[0]); size_t n = mpz_get_ui(c->v[1]), il = mpz_get_ui(c->v[2]);
 	static uint8_t got[70100], exp[70100]; fill(MSG, il, 2); memset(got, 0xA5, n + 8);
 	int th; if (kind) VF_TRY(th, md_kdf(got, n, MSG, il)); else VF_TRY(th, md_mgf(got, n, MSG, il)); transitions++;
 	if (th) { vf_fail(NULL, "%s raised %d", kind ? "md_kdf" : "md_mgf", th); return; }
-	ref_ctr_kdf(exp, n, MSG, il, kind ? 1 : 0);
+	cfg_ctr_kdf(exp, n, MSG, il, kind ? 1 : 0);
 	if (memcmp(got, exp, n)) vf_fail(NULL, "%s(out %zu, in %zu) differs from %s", kind ? "md_kdf" : "md_mgf", n, il, kind ? "KDF2" : "MGF1");
 	else for (int i = 0; i < 8; i++) if (got[n + i] != 0xA5) { vf_fail(NULL, "%s wrote beyond the requested length", kind ? "md_kdf" : "md_mgf"); break; }
 }
@@ -98,7 +135,7 @@ static void do_aesmut(vf_case *c) {
 }
 
 static void run_case(vf_case *c) {
-	vf_nontrivial();
+	vf_nontrivial(); if (!vf_replaying) vf_stat_add("states", 1); /* every case is a distinct (primitive, lengths, pattern / operator) point of the enumerated grid */
 	if (!strcmp(c->op, "hash")) do_hash(c); else if (!strcmp(c->op, "hmac")) do_hmac(c); else if (!strcmp(c->op, "kdf")) do_kdf(c);
 	else if (!strcmp(c->op, "xmd")) do_xmd(c); else if (!strcmp(c->op, "aes")) do_aes(c); else if (!strcmp(c->op, "aesmut")) do_aesmut(c); else vf_fail(NULL, "unknown op");
 }
@@ -109,29 +146,30 @@ static void R(const char *op, int n, long a, long b, long c2, long d, long e) { 
 static void enumerate(void) {
 	vf_case_init(&K);
 	if (vf_bound_on("digests-every-length")) {
-		long ML = vf_tier ? 600 : 300; long extra[] = {511, 512, 513, 1023, 1024, 1025, 4096, 65537};
+		long ML = vf_tier ? 4200 : 1100; long extra[] = {511, 512, 513, 1023, 1024, 1025, 4096, 65537};
 		for (int a = 0; a < 6; a++) for (int pat = 0; pat < 4; pat++) {
 			for (long l = 0; l <= ML; l++) if (vf_mine()) R("hash", 3, a, l, pat, 0, 0);
 			for (unsigned i = 0; i < 8; i++) if (vf_mine()) R("hash", 3, a, extra[i], pat, 0, 0);
 		}
 		vf_bound_done("digests-every-length");
 	}
-	if (vf_bound_on("hmac-key-x-message-lengths")) {
+	if (vf_bound_on("mac-hmac-key-x-message-lengths")) {
 		long kls[] = {0, 1, 31, 32, 33, 63, 64, 65, 127, 128, 129, 200};
-		if (vf_tier) { for (long kl = 0; kl <= 300; kl++) for (long l = 0; l <= 300; l += (l < 150 ? 1 : 7)) if (vf_mine()) R("hmac", 3, kl, l, 2, 0, 0); }
+		{ long KL = vf_tier ? 300 : 140; for (long kl = 0; kl <= KL; kl++) for (long l = 0; l <= (vf_tier ? 300 : 140); l += (l < 150 ? 1 : 7)) if (vf_mine()) R("hmac", 3, kl, l, 2, 0, 0); }
 		for (unsigned k = 0; k < 12; k++) for (long l = 0; l <= 150; l++) for (int pat = 0; pat < 3; pat++) if (vf_mine()) R("hmac", 3, kls[k], l, pat, 0, 0);
-		vf_bound_done("hmac-key-x-message-lengths");
+		vf_bound_done("mac-hmac-key-x-message-lengths");
 	}
-	if (vf_bound_on("kdf-mgf-every-output-length")) {
+	if (vf_bound_on("mac-kdf-mgf-every-output-length")) {
 		long ins[] = {0, 1, 32, 55, 56, 64, 100}, outs[] = {255, 256, 257, 1000, 8191, 8192, 8193};
-		for (int kind = 0; kind < 2; kind++) for (unsigned k = 0; k < 7; k++) { for (long n = 0; n <= 130; n++) if (vf_mine()) R("kdf", 3, kind, n, ins[k], 0, 0); for (unsigned j = 0; j < 7; j++) if (vf_mine()) R("kdf", 3, kind, outs[j], ins[k], 0, 0); }
-		vf_bound_done("kdf-mgf-every-output-length");
+		for (int kind = 0; kind < 2; kind++) for (unsigned k = 0; k < 7; k++) { for (long n = 0; n <= (vf_tier ? 700 : 270); n++) if (vf_mine()) R("kdf", 3, kind, n, ins[k], 0, 0); for (unsigned j = 0; j < 7; j++) if (vf_mine()) R("kdf", 3, kind, outs[j], ins[k], 0, 0); }
+		vf_bound_done("mac-kdf-mgf-every-output-length");
 	}
 	if (vf_bound_on("xmd")) {
 		long mls[] = {0, 1, 55, 56, 64, 200}, dls[] = {0, 1, 16, 43, 255, 256};
 		for (int a = 0; a < 4; a++) { long h = (long)XM[a].hlen; long outs[] = {0, 1, h - 1, h, h + 1, 2 * h, 2 * h + 1, 96, 128, 255 * h, 255 * h + 1};
 			for (unsigned o = 0; o < 11; o++) for (unsigned m = 0; m < 6; m++) for (unsigned d = 0; d < 6; d++) if (vf_mine()) R("xmd", 4, a, outs[o], mls[m], dls[d], 0);
-			for (long n = 0; n <= 200; n++) if (vf_mine()) R("xmd", 4, a, n, n % 77, 16 + (n % 5), 0); }
+			for (long n = 0; n <= (vf_tier ? 2100 : 700); n++) if (vf_mine()) R("xmd", 4, a, n, n % 77, 16 + (n % 5), 0);
+			for (long d = 0; d <= 257; d++) if (vf_mine()) R("xmd", 4, a, 2 * h + 3, d % 19, d, 0); }
 		vf_bound_done("xmd");
 	}
 	if (vf_bound_on("aes-cbc")) {
